@@ -15,5 +15,5 @@ if args and args[0] == '--all':
         open(p, 'w').write(ast.unparse(m.tree) + '\n')
 else:
     for q in args:
-        print(ast.unparse(r.func(q)))
+        print(ast.unparse(r.nfunc(q)))
         print()
